@@ -1239,7 +1239,7 @@ pub fn run_seq(ctx: &Ctx) {
         out.op(&op, &imp, true);
         let evline = show_events(&evs);
         out.spec(&format!("spec.sig c08seq {};{};{} [{}] => {}", rate, txs.join(","), spans.join(","), label, evline));
-        out.spec(&format!("spec.sig c05seq {} [{}] => {}", txs.join(","), label, evline));
+        out.spec(&format!("spec.sig c05seq {};{} [{}] => {}", rate, txs.join(","), label, evline));
         out.spec(&format!("spec.sig c04 {} [{}] => {}", rate, label, evline));
         out.spec(&format!("spec.sig c13life - [{}] => {}", label, evline));
         out.count(&format!("ntx:{}", ntx));
